@@ -112,6 +112,6 @@ theorem fallthrough_internal_fault_counterexample :
 limit — live memory far beyond the allocation cap — is one the statement excludes -/
 theorem defer_panic_recursion_memory_counterexample :
     deferPanicRecursionObserved.allowed = false ∧
-    Ending.ofToken "crash:mem-growth" = some deferPanicRecursionObserved := by decide
+    Ending.ofToken "crash:resource" = some deferPanicRecursionObserved := by decide
 
 end GnoVerif.C11
